@@ -176,3 +176,37 @@ def layout_sentence(kind, s):
     if kind == "nested":
         return nested_ok(s)
     return bool(LAYOUT_RE[kind].match(s))
+
+
+def tokenizable(kind, text, term_chars):
+    """can `text` be split into single-character content tokens (term_chars) separated by well-formed layout of that
+    kind (None: whitespace skipping)? An unterminated block comment or a foreign character makes it False."""
+    i, n = 0, len(text)
+    while i < n:
+        ch = text[i]
+        if ch in term_chars:
+            i += 1
+        elif ch.isspace() or ch in WS_CHARS:
+            i += 1
+        elif kind in ("comments", "nested") and text.startswith("//", i):
+            j = text.find("\n", i)
+            i = n if j < 0 else j
+        elif kind == "nested" and text.startswith("/*", i):
+            depth, j = 0, i
+            while j < n:
+                if text.startswith("/*", j):
+                    depth += 1
+                    j += 2
+                elif text.startswith("*/", j):
+                    depth -= 1
+                    j += 2
+                    if depth == 0:
+                        break
+                else:
+                    j += 1
+            if depth != 0:
+                return False
+            i = j
+        else:
+            return False
+    return True
